@@ -26,29 +26,31 @@ Definition cS : scalar_cfg :=
   {| sc_type := "Any"; sc_ser := Some "vscal.ser_S"; sc_parse := Some "vscal.parse_S"; sc_import := None |}.
 Definition SS : schema := [("S", DCustom (Some cS))].
 
-(* ---- top-level arguments ---- *)
-Definition C07_serialize_args_full : Prop := forall S t v log,
-  occ_ser S t false v = Some log -> arg_log S t v = log.
+(* ---- top-level arguments (full since /repo d163d56): evaluating the generated expression with the argument
+        bound to its parameter calls serialize once per non-None occurrence, in order, for every wrapper
+        nesting; never for None; never for an omitted argument (UNSET).  Side condition: the serialize
+        function is not itself named like the parameter or like a comprehension variable (_itemN). ---- *)
+Theorem C07_serialize_args : forall S ser t v log,
+  (forall f, var_ser S t = Some f -> String.eqb f "x" = false /\ is_item_name f = false) ->
+  occ_ser S t false v = Some log -> arg_log ser S t v = Some log.
+Proof. exact serialize_args. Qed.
+Print Assumptions C07_serialize_args.
 
-Theorem C07_serialize_args_partial : forall S t v log,
-  g_f10 S t = true -> occ_ser S t false v = Some log -> arg_log S t v = log.
-Proof. exact serialize_args_guarded. Qed.
-Print Assumptions C07_serialize_args_partial.
+Theorem C07_serialize_args_omitted : forall S ser t,
+  (forall f, var_ser S t = Some f -> String.eqb f "x" = false /\ is_item_name f = false) ->
+  is_nonnull t = false -> arg_log ser S t PUnset = Some [].
+Proof. exact serialize_args_omitted. Qed.
+Print Assumptions C07_serialize_args_omitted.
 
-Theorem C07_serialize_args_refuted_none :
-  occ_ser SS (TNamed "S") false PNone = Some [] /\ arg_log SS (TNamed "S") PNone = [("ser_S", PNone)].
-Proof. vm_compute. split; reflexivity. Qed.
-
-(* omitted: the parameter is bound to UNSET, which is no value of the type at all *)
-Theorem C07_serialize_args_refuted_unset : arg_log SS (TNamed "S") PUnset = [("ser_S", PUnset)].
-Proof. vm_compute. reflexivity. Qed.
-
-Theorem C07_serialize_args_refuted_list : ~ C07_serialize_args_full.
-Proof.
-  intro H. specialize (H SS (TList (TNamed "S")) (PList [PCustom (JStr "a"); PNone]) _ eq_refl).
-  vm_compute in H. discriminate.
-Qed.
-Print Assumptions C07_serialize_args_refuted_list.
+(* the former refutation witnesses (F10), kept as regression cases *)
+Example C07_f10_regression :
+  arg_log ser_inst SS (TNamed "S") PNone = Some [] /\
+  arg_log ser_inst SS (TNamed "S") PUnset = Some [] /\
+  arg_log ser_inst SS (TList (TNamed "S")) (PList [PCustom (JStr "a"); PNone; PCustom (JInt 2)]) =
+    Some [("ser_S", PCustom (JStr "a")); ("ser_S", PCustom (JInt 2))] /\
+  occ_ser SS (TList (TNamed "S")) false (PList [PCustom (JStr "a"); PNone; PCustom (JInt 2)]) =
+    Some [("ser_S", PCustom (JStr "a")); ("ser_S", PCustom (JInt 2))].
+Proof. vm_compute. repeat split. Qed.
 
 (* ---- imports ---- *)
 Theorem C07_imports_complete : forall c nm m o,
